@@ -11,6 +11,7 @@ import warnings
 import numpy as np
 
 LEVEL = "proof"
+EXTRA_PROPS = ["QuantemModel.Props.C07Ext"]     # growth round 6: angle sets outside ascending [0, 180], accumulation loop
 MANIFEST_ENTRY = {
     "category": "proof",
     "text": "Lean 4 theorems (81, over the reals) about one executable model (generic numeric carrier, run at Float) of BOTH the torch port "
@@ -504,6 +505,31 @@ def parity(N):
     return "even" if N % 2 == 0 else "odd"
 
 
+def angles_outside(thetas):
+    return thetas is not None and any(t < 0.0 or t > 180.0 for t in thetas)
+
+
+def angle_class(thetas):
+    """input-distribution class of an angle set (sign / quadrant / orientation themes)"""
+    if thetas is None:
+        return "default"
+    c = []
+    if any(t < 0 for t in thetas):
+        c.append("negative")
+    if any(t > 180 for t in thetas):
+        c.append("beyond-180")
+    if any(t == 180 for t in thetas):
+        c.append("has-180")
+    if len(thetas) > 1:
+        if all(a > b for a, b in zip(thetas, thetas[1:])):
+            c.append("descending")
+        elif not all(a <= b for a, b in zip(thetas, thetas[1:])):
+            c.append("unsorted")
+        if len(set(thetas)) < len(thetas):
+            c.append("duplicates")
+    return "+".join(c) or "ascending-in-0-180"
+
+
 def case_radon(ctx, model, case, with_model=True):
     """radon_torch vs skimage.radon vs model, + batched = single, + linearity, + theta=0 column sums"""
     N, kind, seeds, thetas = case["N"], case["img"], case["seeds"], case["thetas"]
@@ -524,6 +550,10 @@ def case_radon(ctx, model, case, with_model=True):
     ctx.dist[f"radon:premasked={masked}"] += 1
     if any(np.any(im) for im in imgs):
         ctx.mark(("radon", N, len(thetas), kind, B, layout, tlay))
+    # the quantifier names angles in [0, 180]; the statement says "every angle set" and the port takes any angle like the reference
+    # (radon_angle_period): checked as well, under a key of its own
+    ksize = f"radon-{parity(N)}-size" + ("-angles-outside-0-180" if angles_outside(thetas) else "")
+    ctx.dist[f"radon:angle-set={angle_class(thetas)}"] += 1
     # --- real torch, batched call (B == 1: a 2-D tensor half of the time)
     arr = np.stack(imgs) if (B > 1 or case.get("keepdim", False)) else imgs[0]
     try:
@@ -546,7 +576,7 @@ def case_radon(ctx, model, case, with_model=True):
         d = maxdiff(tb[b], ref)
         ctx.stat_max(f"radon torch-vs-skimage rel ({parity(N)} N)", d / scale(ref))
         if d > TOL_PRED * scale(ref):
-            ctx.pred_fail(f"radon-{parity(N)}-size", f"radon_torch differs from skimage.transform.radon(circle=True) by {d:.3g} "
+            ctx.pred_fail(ksize, f"radon_torch differs from skimage.transform.radon(circle=True) by {d:.3g} "
                           f"(tolerance {TOL_PRED * scale(ref):.3g})", dict(case, image_index=b), observed=worst(tb[b], ref), required="agreement")
         # (2) batched = per-image, and the result depends only on the values (not on memory layout / dtype class)
         if B > 1 or layout != "contig" or tlay != "f32" or form != "kw" or device is not None:
@@ -790,7 +820,8 @@ def case_iradon(ctx, model, case, with_model=True):
     if any(np.any(s) for s in sinos):
         ctx.mark(("iradon", N, A, kind, filt, circle, B, thetas is None, None if out is None else (out > N) - (out < N), layout, tlay))
     suffix = ("" if circle else "-nocircle") + ("" if out is None else "-output-size")
-    key = "iradon-default-theta" if thetas is None else f"iradon-{parity(N)}-size{suffix}"
+    key = "iradon-default-theta" if thetas is None else f"iradon-{parity(N)}-size{suffix}" + ("-angles-outside-0-180" if angles_outside(thetas) else "")
+    ctx.dist[f"iradon:angle-set={angle_class(thetas)}"] += 1
     arr = np.stack(sinos) if (B > 1 or case.get("keepdim", False)) else sinos[0]
     try:
         tb = t_iradon(arr, thetas, filt, circle, out, layout, "f32" if thetas is None else tlay, form, device)
@@ -900,32 +931,54 @@ def case_sirt(ctx, model, case):
     ctx.dist[f"sirt:slices={D}"] += 1
     vol = np.stack([make_image(case["img"], N, s, masked=False) for s in seeds])
     tilt = np.stack([make_sino("random", len(thetas), N, s + 1) for s in seeds])
+    epochs, inline, gauss = case.get("epochs", 1), case.get("inline", False), case.get("gauss", False)
+    ctx.dist[f"sirt:epochs={epochs},inline-alignment={inline},gaussian-kernel={gauss}"] += 1
+    ctx.mark(("sirt", N, D, len(thetas), epochs, inline, gauss))
+    pf_in = torch.zeros(D, len(thetas), N)
     try:
         from quantem.tomography.tomography_conv import TomographyConv
         angles = torch.tensor(thetas, dtype=torch.float32)
 
-        class _Vol:
-            pass
+        class _Vol:                       # as the volume object of the class: `obj` reads / re-binds `_obj`
+            @property
+            def obj(self):
+                return self._obj
+
+            @obj.setter
+            def obj(self, val):
+                self._obj = val
         v = _Vol()
         v._obj = to_layout(vol, case.get("layout", "contig"))
-        v.obj = v._obj
         fake = types.SimpleNamespace(dataset=types.SimpleNamespace(tilt_angles=angles), volume_obj=v, device=torch.device("cpu"))
-        pf, _loss = TomographyConv._sirt_run_epoch(fake, torch.tensor(tilt), torch.zeros(D, len(thetas), N), angles,
-                                                   False, case["filter"], True, None)
-        pf = pf.detach().cpu().numpy().astype(np.float64)
-    except (TypeError, AttributeError) as e:  # the private epoch signature changed: not a property matter
+        kernel = torch.tensor([0.25, 0.5, 0.25]) if gauss else None
+    except (TypeError, AttributeError, ImportError) as e:
         ctx.dist["sirt:not-callable-with-stub:" + type(e).__name__] += 1
         return
-    ctx.mark(("sirt", N, D, len(thetas)))
-    if pf.ndim == 2:
-        pf = pf[None]
-    for d in range(D):
-        ref = s_radon((vol[d] * disc(N)).astype(np.float64), thetas)
-        dd = maxdiff(pf[d], ref)
-        ctx.stat_max("sirt forward projection vs skimage rel", dd / scale(ref))
-        if dd > TOL_PRED * scale(ref):
-            ctx.pred_fail(f"sirt-forward-{parity(N)}-size", f"forward projection inside TomographyConv._sirt_run_epoch differs from "
-                          f"skimage.radon of the slice by {dd:.3g}", dict(case, slice=d), observed=worst(pf[d], ref), required="agreement")
+    for ep in range(epochs):
+        # the volume the epoch starts from (epoch 0: as given; later: whatever the previous epoch left — update rule, smoothing and
+        # alignment are NOT part of the property, only that the forward projection returned is the sinogram of that volume)
+        before = v._obj.detach().cpu().numpy().astype(np.float64).copy()
+        try:
+            pf, _loss = TomographyConv._sirt_run_epoch(fake, torch.tensor(tilt), pf_in, angles,
+                                                       bool(inline and ep > 0), case["filter"], True, kernel)
+        except (TypeError, AttributeError, IndexError) as e:  # the private epoch signature / stub contract changed: not a property matter
+            ctx.dist["sirt:not-callable-with-stub:" + type(e).__name__] += 1
+            return
+        pf_in = pf
+        pfa = pf.detach().cpu().numpy().astype(np.float64)
+        if pfa.ndim == 2:
+            pfa = pfa[None]
+        if pfa.shape != (D, len(thetas), N) or not np.all(np.isfinite(before)):
+            ctx.dist["sirt:epoch-output-not-comparable"] += 1
+            return
+        for d in range(D):
+            ref = s_radon((before[d] * disc(N)).astype(np.float64), thetas)
+            dd = maxdiff(pfa[d], ref)
+            ctx.stat_max("sirt forward projection vs skimage rel", dd / scale(ref))
+            if dd > TOL_PRED * scale(ref):
+                ctx.pred_fail(f"sirt-forward-{parity(N)}-size", f"forward projection inside TomographyConv._sirt_run_epoch (epoch {ep}, slice {d} of {D}) differs from "
+                              f"skimage.radon of the slice by {dd:.3g}", dict(case, slice=d, epoch=ep), observed=worst(pfa[d], ref), required="agreement")
+                return
     ctx.sample({"stream": "sirt", **case}, limit=7)
 
 
@@ -1111,6 +1164,111 @@ def fixed_histories():
                      "good_name": names[(k + 1) % 6] or "ramp"},
                     valid(n2, c2, 1000 + 10 * k), valid(n1, c1, 2000 + 10 * k)]})
                 k += 1
+    return out
+
+
+def _clear_thetas(N, circle, candidates, out=None):
+    """first candidate angle set that keeps every back-projected position clear of the detector ends"""
+    for th in candidates:
+        if edge_distance(N, th, circle, out) > 1e-3:
+            return th
+    return None
+
+
+ANGLE_SETS_G6 = [
+    ("has-180", [0.0, 90.0, 180.0]),
+    ("right-angles-beyond-180", [0.0, 90.0, 180.0, 270.0, 360.0]),
+    ("beyond-180", [200.0, 271.5, 359.0, 450.0]),
+    ("negative", [-30.0, -90.5, -179.0, -200.0]),
+    ("descending", [170.0, 100.0, 45.5, 10.0]),
+    ("unsorted-duplicates", [90.0, 10.0, 170.0, 45.5, 10.0]),
+    ("four-quadrants", [30.0, 120.0, 210.0, 300.0]),
+    ("mixed-sign-unsorted", [-45.0, 135.0, 45.0, -135.0, 225.0]),
+]
+
+
+def fixed_g6():
+    """FIXED blocks of growth round 6 (the same for every seed and tier), one per theme:
+    (i) size / count thresholds: detector lengths that are exact powers of two (and one more) after the circle-mode padding x every
+        non-ramp filter; batch sizes and numbers of angles above plausible internal chunk sizes (5 .. 33 items, 17 .. 257 angles);
+        volumes of 5 .. 33 slices through TomographyConv._sirt_run_epoch, two epochs, inline alignment, smoothing kernel;
+    (ii) sign / quadrant / orientation: angle sets with exactly 180, beyond 180 / 360, negative, descending, unsorted with
+        duplicates, on images that are not mirror-symmetric, square and H != W both ways, for radon and iradon;
+    (iii) performance shortcuts: one process asking for the filters of ONE size under different names in every order of first
+        use, the same reconstruction / sinogram repeated, the same size with another angle set / batch size / image afterwards."""
+    out = []
+    # --- (i) exact powers of two after padding x every non-ramp filter
+    k = 0
+    for circle, sizes in ((True, [22, 23, 45, 46, 90, 181]), (False, [16, 32, 33, 64, 128])):
+        for N in sizes:
+            for filt in FILTERS[1:]:
+                th = _clear_thetas(N, circle, ([21.5, 111.0], [33.0, 101.5], [17.0, 81.0], [36.5, 98.0])) or [21.5, 111.0]
+                out.append({"kind": "iradon", "N": N, "A": 2, "sino": "random", "seeds": [600 + k], "thetas": th, "filter": filt,
+                            "circle": circle, "_model": False})
+                k += 1
+    # --- (i) counts: batch sizes and numbers of angles
+    for B in (5, 9, 17, 33):
+        out.append({"kind": "radon", "N": 5 + (B % 2), "img": "random", "seeds": [700 + b for b in range(B)], "thetas": [0.0, 37.5, 90.0],
+                    "masked": False, "_model": False})
+        out.append({"kind": "iradon", "N": 6 + (B % 3), "A": 2, "sino": "random", "seeds": [800 + b for b in range(B)],
+                    "thetas": [21.5, 111.0], "filter": FILTERS[B % 5], "circle": True, "_model": False})
+    for A in (17, 33, 65, 129, 181, 257):
+        th = [float(np.float32((i * 180.0 / A + 0.25) % 180.0)) for i in range(A)]
+        out.append({"kind": "radon", "N": 4 + (A % 2), "img": "random", "seeds": [900 + A], "thetas": th, "masked": False, "_model": False})
+        out.append({"kind": "iradon", "N": 5 + (A % 2), "A": A, "sino": "random", "seeds": [950 + A], "thetas": th, "filter": "hann",
+                    "circle": True, "_model": False})
+        out.append({"kind": "iradon", "N": 5, "A": A, "sino": "random", "seeds": [960 + A], "thetas": None, "filter": "ramp",
+                    "circle": True, "form": "min", "_model": False})
+    # --- (i) the user of the port: more slices than one, epochs after the first, alignment / smoothing branches
+    for D, ep, inline, gauss in ((5, 1, False, False), (9, 2, False, False), (17, 2, True, False), (33, 1, False, False), (4, 3, True, True), (2, 2, False, True)):
+        out.append({"kind": "sirt", "N": 6 + (D % 2), "D": D, "img": "random", "seeds": [1100 + 3 * d for d in range(D)],
+                    "thetas": [20.0, 140.0] if inline else [20.0, 75.0, 140.0], "filter": "hann", "layout": "contig" if D % 2 else "permuted",
+                    "epochs": ep, "inline": inline, "gauss": gauss})
+    # --- (ii) angle sets x non-symmetric images (square odd / even, H > W, H < W), radon and iradon
+    k = 0
+    for name, th in ANGLE_SETS_G6:
+        for N in (7, 8):
+            out.append({"kind": "radon", "N": N, "img": "random", "seeds": [1200 + k, 1300 + k][:1 + k % 2], "thetas": th, "masked": False,
+                        "_model": (k % 4 == 0)})
+            k += 1
+        out.append({"kind": "radon-rect", "H": 9, "W": 6, "img": "random", "seed": 1400 + k, "thetas": th, "_model": False})
+        out.append({"kind": "radon-rect", "H": 5, "W": 8, "img": "ramp", "seed": 1500 + k, "thetas": th, "_model": False})
+        for N, circle, filt in ((9, True, "hann"), (10, True, "ramp"), (12, False, "shepp-logan")):
+            if edge_distance(N, th, circle) > 1e-3:
+                out.append({"kind": "iradon", "N": N, "A": len(th), "sino": "random", "seeds": [1600 + k], "thetas": th, "filter": filt,
+                            "circle": circle, "_model": (N == 9 and k % 3 == 0), "via_e": False})
+            k += 1
+    # --- (iii) one process, one size, different filter names in every order of first use; repeated identical calls
+    for first in range(6):
+        order = [FILTERS[first]] + [f for j, f in enumerate(FILTERS) if j != first] + [FILTERS[first]]
+        out.append({"kind": "history", "scribble": bool(first % 2), "ops":
+                    [{"kind": "filter", "size": 64 if first < 4 else 128, "name": nm, "form": "kw", "model": False} for nm in order]})
+
+    def ir(N, filt, circle, sd, th=(33.0, 101.5), B=1):
+        return {"kind": "iradon", "N": N, "A": len(th), "sino": "random", "seeds": [sd + b for b in range(B)], "thetas": list(th),
+                "filter": filt, "circle": circle, "out": None, "keepdim": B > 1}
+    for j, (N, circle) in enumerate(((14, True), (20, False))):
+        for first in ("shepp-logan", "hann", None):
+            rest = [f for f in FILTERS if f != first]
+            ops = [ir(N, first, circle, 1700 + j)] + [ir(N, f, circle, 1700 + j) for f in rest[:3]]
+            ops += [ir(N, first, circle, 1700 + j), ir(N, first, circle, 1700 + j),          # the identical reconstruction again, twice
+                    ir(N, first, circle, 1750 + j),                                          # same configuration, other data
+                    ir(N, first, circle, 1700 + j, th=(101.5, 33.0)),                        # same size, the angle set reversed
+                    ir(N, first, circle, 1700 + j, th=(12.0, 58.0)),                         # same size, other angles
+                    ir(N, first, circle, 1700 + j, B=2),                                     # same size, other batch size
+                    ir(N - 3, first, circle, 1700 + j), ir(N, first, circle, 1700 + j)]      # another size and back
+            out.append({"kind": "history", "scribble": bool(j), "ops": ops})
+
+    def ra(N, sd, th, B=1, masked=False):
+        return {"kind": "radon", "N": N, "img": "random", "seeds": [sd + b for b in range(B)], "thetas": list(th), "masked": masked,
+                "keepdim": B > 1}
+    for N in (7, 8):
+        out.append({"kind": "history", "scribble": N == 8, "ops": [
+            ra(N, 1800, (20.0, 110.0)), ra(N, 1800, (20.0, 110.0)), ra(N, 1801, (20.0, 110.0)), ra(N, 1800, (110.0, 20.0)),
+            ra(N, 1800, (65.0, 155.0)), ra(N, 1800, (20.0, 110.0), B=2), ra(N + 2, 1800, (20.0, 110.0)), ra(N, 1800, (20.0, 110.0)),
+            {"kind": "radon-rect", "H": N + 3, "W": N, "img": "random", "seed": 1810, "thetas": [20.0, 110.0]},
+            {"kind": "radon-rect", "H": N, "W": N + 3, "img": "random", "seed": 1811, "thetas": [20.0, 110.0]},
+            ra(N, 1800, (20.0, 110.0))]})
     return out
 
 
@@ -1410,6 +1568,12 @@ def run(ctx):
             for hcase in fixed_histories():      # enumerated class, independent of seed and tier
                 ctx.dist["history:fixed-block"] += 1
                 dispatch(ctx, model, hcase)
+        # --- growth round 6: fixed blocks (thresholds / exact multiples, sign / orientation of the angle set, repeated and re-keyed calls)
+        if not ctx.search_mode:
+            for gcase in fixed_g6():
+                gcase = dict(gcase)
+                ctx.dist["g6-fixed-block:" + gcase["kind"]] += 1
+                dispatch(ctx, model, gcase, with_model=bool(gcase.pop("_model", True)))
         for i in range(ctx.n(45, 450)):
             rng = ctx.rng.fork(10000 + i)
             dispatch(ctx, model, gen_history(ctx, rng))
@@ -1434,7 +1598,7 @@ def replay(ctx, rep):
         case = ds[0]["case"] if ds else None
     if case is None:
         return True
-    case = {k: v for k, v in case.items() if k not in ("image_index", "sino_index", "stream", "slice", "at")}
+    case = {k: v for k, v in case.items() if k not in ("image_index", "sino_index", "stream", "slice", "at", "epoch", "_model")}
     model = Model()
     try:
         dispatch(ctx, model, case, True)
